@@ -7,13 +7,22 @@ import CBV.Gen.TC03
 
 namespace CBV.C03
 
-/-- the encodings of the model's trees, with the names of the source -/
-def relBodiesEnc : List ((String × String × String) × List String) :=
-  relBodies.map fun p => ((p.1.out.name, p.1.in1.name, p.1.in2.name), encBody p.2)
+/-! ### the trees are the source: one statement per relation (a relation the translator cannot read breaks only its own) -/
 
-theorem relBodies_source : relBodiesEnc = CBV.Gen.c03RelBodies := by decide +kernel
+theorem body_c2c_count_end_source : encBody body_c2c_count_end = CBV.Gen.c03Body_c2c_expansion__count__end_size := by decide +kernel
+theorem body_c2c_count_start_source : encBody body_c2c_count_start = CBV.Gen.c03Body_c2c_expansion__count__start_size := by decide +kernel
+theorem body_c2c_count_total_source : encBody body_c2c_count_total = CBV.Gen.c03Body_c2c_expansion__count__total_expansion := by decide +kernel
+theorem body_count_end_c2c_source : encBody body_count_end_c2c = CBV.Gen.c03Body_count__end_size__c2c_expansion := by decide +kernel
+theorem body_count_start_c2c_source : encBody body_count_start_c2c = CBV.Gen.c03Body_count__start_size__c2c_expansion := by decide +kernel
+theorem body_count_total_c2c_source : encBody body_count_total_c2c = CBV.Gen.c03Body_count__total_expansion__c2c_expansion := by decide +kernel
+theorem body_count_total_start_source : encBody body_count_total_start = CBV.Gen.c03Body_count__total_expansion__start_size := by decide +kernel
+theorem body_end_start_total_source : encBody body_end_start_total = CBV.Gen.c03Body_end_size__start_size__total_expansion := by decide +kernel
+theorem body_start_count_c2c_source : encBody body_start_count_c2c = CBV.Gen.c03Body_start_size__count__c2c_expansion := by decide +kernel
+theorem body_start_end_total_source : encBody body_start_end_total = CBV.Gen.c03Body_start_size__end_size__total_expansion := by decide +kernel
+theorem body_total_count_c2c_source : encBody body_total_count_c2c = CBV.Gen.c03Body_total_expansion__count__c2c_expansion := by decide +kernel
+theorem body_total_start_end_source : encBody body_total_start_end = CBV.Gen.c03Body_total_expansion__start_size__end_size := by decide +kernel
 
-def validatorBodiesEnc : List (String × List String × List String) :=
+def validatorBodiesEnc : List (String × Nat × List String) :=
   validatorBodies.map fun p => (p.1, p.2.1, encBody p.2.2)
 
 theorem validatorBodies_source : validatorBodiesEnc = CBV.Gen.c03ValidatorBodies := by decide +kernel
@@ -214,7 +223,7 @@ theorem run_c2c_count_end (t : Tol) (o : Oracle) (L e : ℚ) (n : ℕ) :
 /-! ### the simple validators: their bodies do what `validateSem` says -/
 
 theorem validators_sem (P : Prims) (q : ℚ) :
-    validatorBodies.map (fun p => (p.1, run P (p.2.1.map (fun x => (x, LVal.num q))) (p.2.2 ++ [.ret (.lit 0)]))) =
+    validatorBodies.map (fun p => (p.1, run P [("v0", LVal.num q), ("v1", LVal.num q)] (p.2.2 ++ [.ret (.lit 0)]))) =
       [("_validate_length", if q ≤ 0 then .error .value else .ok 0),
        ("_validate_start_end_size", if q ≤ 0 then .error .value else .ok 0),
        ("_validate_c2c_expansion", if q = 0 then .error .value else .ok 0),
